@@ -265,6 +265,10 @@ def jobs(tier, seed):
                   {"shapes": [F([S(1), O(1, [(1, []), (1, [])]), R([S(1)])])],
                    "opts": {"select": True, "stop": "sym", "out_dom": {"*": [0, 1]}}, "checks": ["rollup"]},
                   reach=["C03.rollup(outline)", "C03.rollup(rule)"], min_paths=20, cost=6000, validate=100))
+    # a raising scenario-layer cleanup is an error of that scenario (and rolls up): the C13 run harness, ground truth from its cleanups
+    js.append(Job("c.run.cleanup-error-status", "props.c13:h_cleanup_runs",
+                  {"shapes": [F([S(2), S(1)])], "opts": {"out_dom": {"*": [5, 6]}, "undef": False}},
+                  reach=["C13.run.raising-cleanup-marks-owner-error"], min_paths=20, cost=3000, validate=60))
     # a scenario without own steps below a background: its status follows the inherited steps
     js.append(Job("c.run.bg-stepless", "vlib.stage1:h_stage1",
                   {"shapes": [F([S(0), S(1), R([S(0)], bg=1)], bg=1)], "opts": {"out_dom": {"*": [0, 2]}, "dry_run": "sym"}, "checks": ["rollup", "steps"]},
